@@ -29,7 +29,11 @@ def build(kind, codec, nrec, si):
     key = (kind, codec, nrec, si)
     if key in _FILES:
         return _FILES[key]
-    schema, recs = (SCHEMA, RECORDS[:nrec]) if kind == "rec" else (PRIM[0], PRIM[1][:nrec])
+    if kind == "many":
+        # >= 64 records per block: the block's record count is a multi-byte varint
+        schema, recs = "long", [(-1) ** i * i for i in range(nrec)]
+    else:
+        schema, recs = (SCHEMA, RECORDS[:nrec]) if kind == "rec" else (PRIM[0], PRIM[1][:nrec])
     fo = io.BytesIO()
     W.writer(fo, schema, recs, codec=codec, sync_interval=si, sync_marker=MARK)
     data = fo.getvalue()
@@ -160,12 +164,16 @@ def file_specs(tier, seed):
                     if kind == "prim" and nrec > 4:
                         continue
                     specs.append((kind, codec, nrec, si))
+        for codec in CODECS:
+            specs.append(("many", codec, 70, 100000))
+            specs.append(("many", codec, 130, 150))
     else:
         layouts = [(3, 1), (4, 30), (5, 1000), (1, 100)]
         for i, codec in enumerate(CODECS):
             specs.append(("rec", codec, *layouts[(i + seed) % 4]))
             specs.append(("rec" if (i + seed) % 2 else "prim", codec, *layouts[(i + seed + 2) % 4][:2]))
         specs.append(("prim", "null", 0, 100))
+        specs.append(("many", CODECS[seed % 2], 70, 100000))
     return [s if not (s[0] == "prim" and s[2] > 4) else (s[0], s[1], 4, s[3]) for s in specs]
 
 
